@@ -12,9 +12,9 @@ import (
 
 func init() { Registry["C01"] = C01 }
 
-// configuration used by all C01 programs: small, pairwise different patterns; two of them contain a literal blank
+// configuration used by all C01 programs: small, pairwise different patterns; two of them contain a literal blank; the file also has keys the tool does not know
 // (the blank of a pattern is part of the configured text, only a blank of a word means "white space")
-const c01Yaml = "patterns:\n  anti_evasion:\n    unix: '[ q]*'\n    windows: '[w]*'\n  anti_evasion_suffix:\n    unix: '\\s'\n    windows: '[ ;]'\n  anti_evasion_no_space_suffix:\n    unix: 'n'\n    windows: 'm'\n"
+const c01Yaml = "version: 2\npatterns:\n  future_pattern:\n    unix: 'x'\n  anti_evasion:\n    unix: '[ q]*'\n    windows: '[w]*'\n  anti_evasion_suffix:\n    unix: '\\s'\n    windows: '[ ;]'\n  anti_evasion_no_space_suffix:\n    unix: 'n'\n    windows: 'm'\n"
 
 var c01Cfg = ref.CmdCfg{UnixEvasion: "[ q]*", UnixSuffix: `\s`, UnixNoSpace: "n", WindowsEvasion: "[w]*", WindowsSuffix: "[ ;]", WindowsNoSpace: "m"}
 
